@@ -82,6 +82,18 @@ func (r *vssRun) onPoly(commits []kyber.Point, d gDeal) bool {
 	return got.Equal(want)
 }
 
+func samePoints(a, b []kyber.Point) bool {
+	if len(a) != len(b) {
+		return false
+	}
+	for i := range a {
+		if !a[i].Equal(b[i]) {
+			return false
+		}
+	}
+	return true
+}
+
 func (r *vssRun) validT(t uint32) bool { return t >= 2 && int(t) <= r.n }
 
 func (r *vssRun) signResp(signer int, rs *gResp) {
@@ -411,6 +423,19 @@ func (r *vssRun) deliverResponse(progress bool) {
 		just.Deal = just.Deal.clone()
 		r.justs = append(r.justs, *just)
 		r.stats["justification"] = true
+		// A Byzantine dealer may broadcast a second, different justification for the same complaint
+		// (an invalid one followed by the valid one, or the other way round): sign it by hand.
+		if second := rapid.SampledFrom([]string{"", "", "good", "good", "bad-share", "foreign-commitments"}).Draw(r.t, "jsecond"); second != "" && second != plan {
+			j2 := gJust{SID: append([]byte(nil), just.SID...), Index: just.Index, Deal: r.justDeal(int(just.Index), second)}
+			j2.Sig, _ = schnorr.Sign(r.suite, r.dlong, r.impl.justHash(r.suite, j2))
+			if rapid.Bool().Draw(r.t, "jsecondfirst") {
+				r.justs = append(r.justs[:len(r.justs)-1], j2, r.justs[len(r.justs)-1])
+			} else {
+				r.justs = append(r.justs, j2)
+			}
+			r.log("  dealer also signs a second justification(%s) for idx %d", second, just.Index)
+			r.stats["second-justification"] = true
+		}
 	} else if to == r.n && valid && !rs.Approved && err == nil {
 		r.fail("no-justification", "%s: the dealer accepted a complaint but produced no justification", step)
 	}
@@ -470,7 +495,11 @@ func (r *vssRun) deliverJustification() {
 	st, has := v.resp[j.Index]
 	pending := has && !st
 	tOK := r.validT(j.Deal.T) && (r.impl.rabin || j.Deal.T == v.t)
-	correct := j.Deal.I == j.Index && tOK && bytes.Equal(j.Deal.SID, v.sid) && r.onPoly(v.commits, j.Deal)
+	// correct = the revealed deal is the one of the complaining verifier, for this session, carrying the
+	// very commitments this verifier holds, and its share opens them.  (A share that happens to lie on
+	// this verifier's polynomial but is revealed under other commitments is not a justification of
+	// this deal: a Byzantine dealer that gave this verifier altered commitments can produce one.)
+	correct := j.Deal.I == j.Index && tOK && bytes.Equal(j.Deal.SID, v.sid) && samePoints(j.Deal.Commits, v.commits) && r.onPoly(v.commits, j.Deal)
 	step := fmt.Sprintf("justification(idx %d)->V%d", j.Index, to)
 	var err error
 	if pn := safely(func() { err = r.vers[to].ProcessJustification(j) }); pn != "" {
